@@ -248,7 +248,8 @@ def main():
             undecided.append('UNDECIDED property=%s target=%s: contracts need re-attaching (%s)' % (pid, nm, err))
 
     # ---------------- evidence
-    n_ob = len(proves) + len([x for x in extra if x.get('counts', True)])
+    n_known = len(known_hit)
+    n_ob = len(proves) + len([x for x in extra if x.get('counts', True)]) - n_known
     n_dis = len([r for r in proves if r.status == 'discharged']) + \
         len([x for x in extra if x['status'] == 'discharged' and x.get('counts', True)])
     backends = {}
@@ -288,6 +289,7 @@ def main():
             'covers_total': len(covers),
             'dropped_by_extraction': sorted(dropped | {'docstrings and comments'}),
             'bounded_parts': getattr(prop, 'BOUNDED', []),
+            'obligations_failing_as_known_findings': n_known,
             'known_findings_matched': [{'obligation': (r['name'] if isinstance(r, dict) else r.name), 'what': k['what']}
                                        for r, k in known_hit],
             'samples': samples,
